@@ -1,8 +1,12 @@
-/-! Line-protocol driver for the FS family: one request per line, first token selects the handler.
-Imports only core-Lean model files under Claripy/ (never Mathlib), so it links as an executable. -/
+import DriverFS.Str
+/-! Line-protocol driver for the FS family (strings, floating point, model-value extraction): one request per line,
+first token selects the handler.  Imports only core-Lean model files under Claripy/ (never Mathlib). -/
 
 def dispatch (line : String) : String :=
   match (line.trimAscii.toString.splitOn " ").filter (· ≠ "") with
+  | "str" :: args => DriverFS.Str.handleModel args
+  | "spec" :: args => DriverFS.Str.handleSpec args
+  | "codec" :: args => DriverFS.Str.handleCodec args
   | _ => "bad-op"
 
 partial def loop (h : IO.FS.Stream) (out : IO.FS.Stream) : IO Unit := do
